@@ -21,6 +21,20 @@ Proof.
   - rewrite upd_other by lia. rewrite !Nat2Z.inj_add. rewrite IHn by lia. lia.
 Qed.
 
+(* combined taint: a BaseException escaped close(), or escaped the reset of an explicitly returned fairy *)
+Lemma tc_taint : forall s, taint_close s = true -> taint s = true.
+Proof. unfold taint; intros s H; rewrite H; reflexivity. Qed.
+Lemma RecLevel_taint : forall s s', RecLevel s s' -> taint s = true -> taint s' = true.
+Proof.
+  unfold taint; intros s s' [] H. rewrite rl_tg. apply orb_true_iff in H as [H|H]; [rewrite rl_tc; auto|rewrite H; apply orb_true_r].
+Qed.
+Lemma Mono_taint_true : forall s s', Mono s s' -> taint s = true -> taint s' = true.
+Proof.
+  unfold taint; intros s s' [] H. apply orb_true_iff in H as [H|H]; [rewrite m_tc; auto|rewrite m_tg; auto; apply orb_true_r].
+Qed.
+Lemma Mono_taint_false : forall s s', Mono s s' -> taint s' = false -> taint s = false.
+Proof. intros s s' M H. destruct (taint s) eqn:E; auto. rewrite (Mono_taint_true _ _ M E) in H. discriminate. Qed.
+
 Section Acc.
 Variable cf : cfg.
 Hypothesis KQ : kind cf = KQueue.
@@ -38,9 +52,9 @@ Definition QOk (fl : option nat) (s : st) : Prop :=
   (forall r, (nrecs s <= r)%nat -> r_fairy s r = None).
 Definition OvB (s : st) : Prop := 0 <= maxov cf -> overflow s <= maxov cf.
 (* the accounting invariant with at most one "floating" record (taken from the pool, no fairy yet /
-   any more); void once a BaseException has escaped close() *)
+   any more); void once a BaseException has escaped close() or the reset of an explicitly returned fairy *)
 Definition A (fl : option nat) (s : st) : Prop :=
-  taint_close s = true \/ (AccK (flz fl) s /\ QOk fl s /\ OvB s).
+  taint s = true \/ (AccK (flz fl) s /\ QOk fl s /\ OvB s).
 
 Lemma AccK_set_overflow : forall k d s, AccK k s -> AccK (k + d) (set_overflow s (overflow s + d)).
 Proof.
@@ -72,7 +86,7 @@ Proof. intros. unfold inuse_count, in_use. rewrite H, H0. reflexivity. Qed.
 
 Lemma A_rl : forall fl s s', RecLevel s s' -> A fl s -> A fl s'.
 Proof.
-  intros fl s s' R [T|(HA & HQ & HO)]; [left; destruct R; auto|right].
+  intros fl s s' R [T|(HA & HQ & HO)]; [left; eapply RecLevel_taint; eauto|right].
   pose proof R as []. unfold AccK, QOk, OvB in *. rewrite (inuse_rl _ _ rl_nrecs rl_fairy).
   rewrite rl_pl_q, rl_pl_ov, rl_nrecs, rl_fairy. auto.
 Qed.
@@ -80,7 +94,7 @@ Qed.
 (* a new record is floating *)
 Lemma new_record_A : forall k s x s', new_record cf s = (x, s') ->
   AccK k s -> QOk None s ->
-  AccK k s' /\ overflow s' = overflow s /\ (taint_close s = true -> taint_close s' = true) /\
+  AccK k s' /\ overflow s' = overflow s /\ (taint s = true -> taint s' = true) /\
   match x with Ok r => QOk (Some r) s' | Raise _ => QOk None s' end.
 Proof.
   unfold new_record; intros k s x s' H HA (Q1 & Q2 & Q3 & Q4 & Q5).
@@ -104,7 +118,8 @@ Proof.
     - intros r Hr. inv Hr. split; [lia|]. split; [apply upd_same|].
       intro Hi. destruct (Q1 _ Hi). lia. }
   split; [destruct y; inv H; exact HA'|]. split; [destruct y; inv H; rewrite rl_pl_ov; reflexivity|].
-  split; [destruct y; inv H; auto|]. destruct y; inv H; tauto.
+  split; [intros Tt; assert (s' = s7) by (destruct y; inv H; auto); subst s'; apply (RecLevel_taint s6 s7 R); exact Tt|].
+  destruct y; inv H; tauto.
 Qed.
 
 Lemma last_opt_spec : forall A (l : list A) x r, last_opt l = Some (x, r) -> l = r ++ [x].
@@ -158,10 +173,10 @@ Proof.
     + unfold inc_overflow in H.
       destruct HA as [T|(HA & HQ & HO)].
       { (* already tainted *)
-        assert (G : forall y (s2 : st), taint_close s2 = true -> match y : res nat with Ok r => A (Some r) s2 | Raise _ => A None s2 end)
+        assert (G : forall y (s2 : st), taint s2 = true -> match y : res nat with Ok r => A (Some r) s2 | Raise _ => A None s2 end)
           by (intros [|] s2 T2; left; auto).
         pose proof (do_get_queue_mono cf (S fuel) s x s') as M. cbn [do_get_queue] in M.
-        rewrite Eq, Ew in M. unfold inc_overflow in M. specialize (M H). destruct M. apply G; auto. }
+        rewrite Eq, Ew in M. unfold inc_overflow in M. specialize (M H). apply G. eapply Mono_taint_true; eauto. }
       assert (Inc : forall s1, s1 = set_overflow s (overflow s + 1) -> overflow s + 1 <= maxov cf \/ maxov cf = -1 ->
                 match new_record cf s1 with
                 | (Ok r, s2) => (Ok r, s2)
@@ -221,7 +236,7 @@ Proof.
 Qed.
 
 Lemma A_frame : forall fl s s', q s' = q s -> overflow s' = overflow s -> nrecs s' = nrecs s ->
-  r_fairy s' = r_fairy s -> (taint_close s = true -> taint_close s' = true) -> A fl s -> A fl s'.
+  r_fairy s' = r_fairy s -> (taint s = true -> taint s' = true) -> A fl s -> A fl s'.
 Proof.
   intros fl s s' E1 E2 E3 E4 E5 [T|(HA & HQ & HO)]; [left; auto|right].
   unfold AccK, QOk, OvB in *. rewrite (inuse_rl _ _ E3 E4), E1, E2, E3, E4. auto.
@@ -273,7 +288,7 @@ Proof.
   unfold checkin_failed; intros r fwc s x s' H H1 H2.
   destruct (rec_invalidate cf r false s) as [[|e] s1] eqn:E1; pose proof (rec_invalidate_rl _ _ _ _ _ _ E1) as R.
   - eapply rec_checkin_A; [exact H| |]; intros Hf; eapply A_rl; eauto.
-  - inv H. left. eapply rec_invalidate_raise; eauto.
+  - inv H. left. apply tc_taint. eapply rec_invalidate_raise; eauto.
 Qed.
 
 End Acc.
